@@ -135,6 +135,8 @@ def run(model, rep):
         rep.floor('C06.INS', 1)   # where the inserted assignment lands in a real body is decided by C06.VAL (de-hoisting)
 
     def key():
+        model.require_attrs(RL + '.HoistedBinding', '_value_node')
+        model.require_attrs(RL + '.HoistLiterals', '_hoisted')
         ex = [True, False, None, 1, 0, 1.0, 0.0, 'a', b'a', '', b'', 'True']
         for cq, attr in ((RL + '.HoistedValue', '_value'), (RL + '.HoistedBinding', None)):
             fi = model.method(cq, '__eq__')
@@ -182,6 +184,7 @@ def run(model, rep):
 
 def excl(model, rep):
     HL = RL + '.HoistLiterals'
+    model.require_attrs(HL, '_ignore_slots', '_hoisted')
     model.require_method(HL, 'get_binding')      # the collector's registration point, answered by a recorder below
     model.require_names('add_reference')
 
@@ -245,6 +248,8 @@ def excl(model, rep):
 
 def place(model, rep):
     HL = RL + '.HoistLiterals'
+    model.require_attrs(HL, '_hoisted')
+    model.require_attrs(RL + '.HoistedBinding', '_references', '_local_namespace')
     M = Obj('Module', bindings=[])
     M.attrs['namespace'] = M
     F = Obj('FunctionDef', namespace=M, bindings=[], name='f')
